@@ -2,12 +2,14 @@
 import json, re, sqlite3, itertools
 import vlib
 from vlib import Corr, Search, Failure, cz, clist, cstr
-from py2coq import c06quote, c06pin
+from py2coq import c06quote, c06pin, c06lit, codecs as c07codecs
 
 ID = 'C06'
 LEVEL = 'proof'
 PROPS = ['Props/C06.v', 'Findings/C06.v']
-GEN = [('Gen/C06Quote.v', c06quote.generate), ('Gen/C06Pin.v', c06pin.generate)]
+GEN = [('Gen/C06Quote.v', c06quote.generate), ('Gen/C06Pin.v', c06pin.generate),
+       ('Gen/C07Codec.v', c07codecs.generate),      # the C07 builder's generated codec file (datetime2timestamp, timedelta2str): regenerated here too so that this cone is self-contained
+       ('Gen/C06Lit.v', c06lit.generate)]
 TRUSTED = [
     'py2coq translator (tools/py2coq/core.py + c06quote.py): Value.quote_str, Value.__str__ (str, bytes paths), SQLiteValue/MySQLValue/PGValue.__str__, '
     'DBAPIProvider.quote_name, Param.__str__, the MOD symbol and StringMixin._like (constant and parameter branch per call site, ESCAPE character) are '
@@ -481,14 +483,25 @@ def correspondence(ctx):
         got = py_lex_mysql(t)
         add('lex_mysql_mirror', 'opt_eqb str_eqb (lex_mysql %s) %s' % (cstr(t), 'None' if got is None else '(Some %s)' % cstr(got)), t, got, '\\' in s)
 
+    lit_exprs, lit_meta = [], []
+    def add_lit(kind, expr, inp, impl, nt=False):
+        lit_exprs.append(expr); lit_meta.append((kind, inp, impl)); dist[kind] = dist.get(kind, 0) + 1
+        if nt: nontrivial.add(json.dumps([kind, inp], sort_keys=True, default=str))
+    literal_cases(ctx, add_lit, disagree)
+    skeleton_cases(ctx, add_lit, disagree)
+
     hdr_main = HEADER + ('Definition ftok_eqb (a b : ftok) : bool := match a, b with FChar x, FChar y => x =? y | FPos, FPos => true '
                          '| FNamed x, FNamed y => str_eqb x y | _, _ => false end.\n')
     ctx.mkscratch()
     from concurrent.futures import ThreadPoolExecutor
-    with ThreadPoolExecutor(max_workers=2) as pool:
+    with ThreadPoolExecutor(max_workers=3) as pool:
         fut2 = pool.submit(run_bools, ctx, like_exprs, hdr, 150, 'like')
+        fut3 = pool.submit(run_bools, ctx, lit_exprs, HEADER_LIT, 1500, 'lit')
         bad = run_bools(ctx, exprs, header=hdr_main)
-        bad2 = fut2.result()
+        bad2 = fut2.result(); bad3 = fut3.result()
+    for i in bad3[:10]:
+        kind, inp, impl = lit_meta[i]
+        disagreements.append({'what': 'model and implementation differ (%s)' % kind, 'input': inp, 'impl': impl, 'coq_case': lit_exprs[i][:1500]})
     for i in bad[:20]:
         kind, inp, impl = meta[i]
         disagreements.append({'what': 'model and implementation differ (%s)' % kind, 'input': inp, 'impl': impl, 'coq_case': exprs[i][:1500]})
@@ -497,7 +510,7 @@ def correspondence(ctx):
         disagreements.append({'what': 'like_match differs from the linked SQLite', 'input': inp, 'impl': impl, 'coq_case': like_exprs[i][:1500]})
     samples.append({'coq_case': exprs[3]})
     samples.append({'sqlite_version': sqlite3.sqlite_version})
-    return Corr(cases=len(exprs) + len(like_exprs) * len(subjects), nontrivial=len(nontrivial), disagreements=disagreements, samples=samples, distribution=dist,
+    return Corr(cases=len(exprs) + len(lit_exprs) + len(like_exprs) * len(subjects), nontrivial=len(nontrivial), disagreements=disagreements, samples=samples, distribution=dist,
                 note='every case is a boolean computed by vm_compute inside Coq from the model and the serialised implementation output; '
                      'a LIKE case compares one pattern against %d subjects' % len(subjects))
 
@@ -524,6 +537,127 @@ def pinned_and_inlined(prov, src, g):
         used = [k for k in ('x', 'y', 'nm') if re.search(r'\b%s\b' % k, src)]
         inlined = [g[k] for k in used if k not in bound]
     return pinned, inlined
+
+
+# ------------------------------------------------------------------------------------------------ literals other than str / bytes
+
+HEADER_LIT = ('Require Import PonyV.Base.PyBase PonyV.Model.C07Base PonyV.Model.C07Fmt PonyV.Gen.C07Codec PonyV.Model.C07Codec '
+              'PonyV.Model.C06Str PonyV.Model.C06Lex PonyV.Model.C06Params PonyV.Gen.C06Quote PonyV.Model.C06Lit PonyV.Gen.C06Lit PonyV.Model.C06Tok.\n'
+              'Open Scope Z_scope.\n')
+LIT_PREFIX = {'sqlite': 'sqlite_value', 'postgres': 'pg_value', 'mysql': 'mysql_value', 'oracle': 'value'}
+
+def lit_values(ctx):
+    """(kind, python value, Coq value term)"""
+    import datetime, decimal
+    rng = ctx.rng
+    out = [('none', None, None), ('bool', True, 'true'), ('bool', False, 'false')]
+    ints = [0, 1, -1, 9, 10, -10, 255, 2 ** 31, -2 ** 63, 2 ** 64 + 1, 10 ** 30, -10 ** 30 - 7] + [rng.randint(-10 ** 12, 10 ** 12) for _ in range(ctx.scale(6, 60))]
+    out += [('int', z, cz(z)) for z in ints]
+    fl = [0, 1, -1, 10, 123456789, -98765432100, 10 ** 15, -(10 ** 15) - 1, 9007199254740992] + [rng.randint(-10 ** 15, 10 ** 15) for _ in range(ctx.scale(4, 40))]
+    out += [('floatint', float(z), cz(z)) for z in fl]
+    decs = [(0, 0), (0, -2), (5, 0), (-5, 0), (12345, -2), (-12345, -5), (12345, -7), (1, -6), (1, -7), (1, -8), (123, 2), (-1, 3), (1000, -3), (7, -1), (10 ** 20 + 1, -10), (99, -8), (5, 1)]
+    decs += [(rng.randint(-10 ** 9, 10 ** 9), -rng.randint(0, 14)) for _ in range(ctx.scale(8, 80))]
+    for c, e in decs:
+        d = decimal.Decimal((1 if c < 0 else 0, tuple(int(x) for x in str(abs(c))), e))
+        out.append(('decimal', d, '(%s, %s)' % (cz(c), cz(e))))
+    def rdate(): return datetime.date(rng.randint(1, 9999), rng.randint(1, 12), rng.randint(1, 28))
+    dates = [datetime.date(1, 1, 1), datetime.date(9999, 12, 31), datetime.date(2024, 2, 29), datetime.date(999, 3, 7)] + [rdate() for _ in range(ctx.scale(5, 50))]
+    cd = lambda d: '(mk_date %d %d %d)' % (d.year, d.month, d.day)
+    out += [('date', d, cd(d)) for d in dates]
+    dts = [datetime.datetime(2024, 1, 2, 3, 4, 5), datetime.datetime(1, 1, 1, 0, 0, 0, 1), datetime.datetime(9999, 12, 31, 23, 59, 59, 999999), datetime.datetime(2000, 2, 29, 12, 0, 0, 500000)]
+    dts += [datetime.datetime.combine(rdate(), datetime.time(rng.randint(0, 23), rng.randint(0, 59), rng.randint(0, 59), rng.choice([0, 0, rng.randint(1, 999999)]))) for _ in range(ctx.scale(5, 50))]
+    out += [('datetime', d, '(mk_dt %s (mk_time %d %d %d %d))' % (cd(d.date()), d.hour, d.minute, d.second, d.microsecond)) for d in dts]
+    tds = [datetime.timedelta(0), datetime.timedelta(seconds=1), datetime.timedelta(days=-1), datetime.timedelta(microseconds=-1), datetime.timedelta(days=400, seconds=86399, microseconds=999999),
+           datetime.timedelta(hours=-30, microseconds=5), datetime.timedelta(days=100000), datetime.timedelta(seconds=-59)]
+    tds += [datetime.timedelta(days=rng.randint(-3000, 3000), seconds=rng.randint(0, 86399), microseconds=rng.choice([0, rng.randint(1, 999999)])) for _ in range(ctx.scale(5, 50))]
+    out += [('timedelta', t, '(mk_td %s %d %d)' % (cz(t.days), t.seconds, t.microseconds)) for t in tds]
+    out += [('timedelta_days', datetime.timedelta(days=k), cz(k)) for k in (0, 1, -1, 7, 365, -4000, 10 ** 6)]
+    return out
+
+
+def literal_cases(ctx, add, disagree):
+    con = sqlite3.connect(':memory:')
+    import decimal, datetime
+    for prov in PROVIDERS:
+        vc = value_class(prov)
+        own = {'sqlite': 'qmark', 'postgres': 'pyformat', 'mysql': 'format', 'oracle': 'named'}[prov]
+        for style in (STYLES if ctx.thorough else sorted({own, 'format'})):
+            for kind, v, cv in lit_values(ctx):
+                k = kind
+                if kind == 'timedelta_days' and prov != 'sqlite': continue
+                if kind == 'timedelta' and prov == 'sqlite': continue        # SQLite renders repr(float of days): only whole days are modelled
+                try: real = str(vc(style, v))
+                except Exception as e:
+                    disagree('Value.__str__ raised', [prov, style, kind, repr(v)], '%s: %s' % (type(e).__name__, e)); continue
+                fn = '%s_%s' % (LIT_PREFIX[prov], kind)
+                add('literal_' + kind, 'str_eqb (%s %s%s) %s' % (fn, CSTYLE[style], '' if cv is None else ' ' + cv, cstr(real)), [prov, style, kind, repr(v)], real, True)
+                # the SQLite forms against the linked SQLite
+                if prov == 'sqlite' and style == 'qmark':
+                    try: got = con.execute('SELECT ' + real).fetchone()[0]
+                    except sqlite3.Error as e: got = 'EXC %s' % e
+                    if kind in ('none', 'bool', 'int', 'floatint', 'timedelta_days'):
+                        want = {'none': None, 'bool': int(bool(v)) if v is not None else None}.get(kind, v.days if kind == 'timedelta_days' else v)
+                        ok = got == want or (kind == 'int' and abs(v) >= 2 ** 63 and isinstance(got, float) and got == float(v))    # beyond int64 SQLite reads a REAL
+                    elif kind == 'decimal': ok = isinstance(got, (int, float)) and (got == float(v) or abs(got - float(v)) <= 1e-9 * abs(float(v)))
+                    elif kind == 'date': ok = got == v.isoformat() and con.execute('SELECT date(%s)' % real).fetchone()[0] == (v.isoformat() if v.year >= 1000 or True else None)
+                    elif kind == 'datetime': ok = got == v.isoformat(' ') + ('' if v.microsecond else '.000000')
+                    else: ok = True
+                    if not ok: disagree('the linked SQLite reads the literal differently', [kind, repr(v), real], repr(got))
+
+
+def skeleton_cases(ctx, add, disagree):
+    """the statement skeletons of _save_created_ / _save_updated_ / _save_deleted_ / load-by-key: real SQLBuilder text = model text,
+    and the tokeniser applied to the REAL text gives the classes of the skeleton"""
+    from pony.orm.sqlbuilding import SQLBuilder
+    rng = ctx.rng
+    names = ['T1', 'a', 'b_c', 'we"ird', '`q`', "it's", 'x y', 'é', 'p%q', 'sel.ect', '""', 'A?', ':p1', '%s']
+    svals = ["x'y", '', "'", '%', '%%s', 'a"b', '\\', '?', ':1', "'; DROP TABLE x; --", 'é√', '$x', '--', '/*']
+    def rname(): return rng.choice(names)
+    for style in STYLES:
+        for qc in ('"', '`'):
+            prov = base_provider(style); prov.quote_char = qc
+            for _ in range(ctx.scale(6, 60)):
+                pid = [0]
+                def val():
+                    r = rng.random()
+                    if r < 0.4:
+                        pid[0] += 1
+                        return ['PARAM', (pid[0], None, None)], '(SPh %d)' % pid[0]
+                    if r < 0.75:
+                        v = rng.choice(svals); return ['VALUE', v], '(SStr %s)' % cstr(v)
+                    z = rng.choice([0, 5, -5, 10 ** 20, -1, 42]); return ['VALUE', z], '(SInt %s)' % cz(z)
+                kind = rng.choice(['insert', 'update', 'delete', 'select'])
+                table = rname()
+                def pairs(n):
+                    out = []
+                    for _ in range(n):
+                        nm = rname(); a, c = val(); out.append((nm, a, c))
+                    return out
+                if kind == 'insert':
+                    cols = [rname() for _ in range(rng.randint(1, 4))]
+                    vs = [val() for _ in cols]
+                    ast_ = ['INSERT', table, cols, [a for a, _ in vs]]
+                    term = '(insert_stmt %s %s %s)' % (cstr(table), clist(cols, cstr), clist([c for _, c in vs], str))
+                elif kind == 'update':
+                    sets, keys = pairs(rng.randint(1, 3)), pairs(rng.randint(1, 2))
+                    ast_ = ['UPDATE', table, [(n, a) for n, a, _ in sets], ['WHERE'] + [['EQ', ['COLUMN', None, n], a] for n, a, _ in keys]]
+                    pl = lambda l: clist(l, lambda t: '(%s, %s)' % (cstr(t[0]), t[2]))
+                    term = '(update_stmt %s %s %s)' % (cstr(table), pl(sets), pl(keys))
+                elif kind == 'delete':
+                    keys = pairs(rng.randint(1, 3))
+                    ast_ = ['DELETE', None, ['FROM', [None, 'TABLE', table]], ['WHERE'] + [['EQ', ['COLUMN', None, n], a] for n, a, _ in keys]]
+                    term = '(delete_stmt %s %s)' % (cstr(table), clist(keys, lambda t: '(%s, %s)' % (cstr(t[0]), t[2])))
+                else:
+                    cols = [rname() for _ in range(rng.randint(1, 4))]
+                    keys = pairs(rng.randint(1, 2))
+                    ast_ = ['SELECT', ['ALL'] + [['COLUMN', None, c] for c in cols], ['FROM', [None, 'TABLE', table]],
+                            ['WHERE'] + [['EQ', ['COLUMN', None, n], a] for n, a, _ in keys]]
+                    term = '(select_stmt %s %s %s)' % (clist(cols, cstr), cstr(table), clist(keys, lambda t: '(%s, %s)' % (cstr(t[0]), t[2])))
+                try: real = SQLBuilder(prov, ast_).sql
+                except Exception as e:
+                    disagree('SQLBuilder raised on a statement skeleton', [style, qc, kind], '%s: %s' % (type(e).__name__, e)); continue
+                add('skeleton_text', 'str_eqb (stmt_text %s %d %s) %s' % (CSTYLE[style], ord(qc), term, cstr(real)), [style, qc, kind, repr(ast_)], real, True)
+                add('skeleton_tokens', 'list_eqb tclass_eqb (tokenize %s) (stmt_classes %s %s)' % (cstr(real), CSTYLE[style], term), [style, qc, kind, repr(ast_)], real, True)
 
 
 def _flatten(node):
